@@ -643,6 +643,7 @@ def qualname(cls, fn):
 
 
 def loc(module, node):
+    module = getattr(node, '_src_module', None) or module
     return f'{module.relpath}:{getattr(node, "lineno", 0)}'
 
 
